@@ -15,6 +15,8 @@ structure GPkt where
   /-- 0 Initial, 1 Handshake, 2 application data -/
   space : Nat
   size : Int
+  /-- time it was handed to `SentPacket` -/
+  sendTime : Int := 0
   /-- (frame id, reported) for the frames that have a handler -/
   frames : List (Nat × Bool)
   ackEliciting : Bool
@@ -41,6 +43,9 @@ structure Ghost where
   pkts : List GPkt := []
   largestSent : List Int := [-1, -1, -1]
   dropped : List Bool := [false, false, false]
+  /-- per space: the largest packet number of an ACK that was processed and visibly acknowledged something
+      (a lower bound of the handler's `largestAcked`) -/
+  largestAcked : List Int := [-1, -1, -1]
   /-- application-data packet numbers skipped so far (oldest first) -/
   skipped : List Int := []
   confirmed : Bool := false
@@ -92,6 +97,19 @@ def Ghost.afterAck (g : Ghost) (sp : Nat) (rs : List Range) : Ghost × List Fail
     else acc) []
   -- packets without observable frames are resolved by a covering ACK
   ({ g with pkts := g.pkts.map fun p => if p.space = sp ∧ covers rs p.pn ∧ p.frames.isEmpty then { p with gone := true } else p }, fails)
+
+/-- loss detection ran on space `sp` at time `now` (an ACK newly acknowledged something there): every packet
+    below the largest acknowledged one that is overdue by the time threshold (sent at least
+    `lossDelay = max(9/8·max(latest_rtt, smoothed_rtt), granularity)` ago) or by the packet threshold must have been
+    declared lost by now — its frames reported, whatever kind of packet it is (Path MTU probes included) -/
+def Ghost.overdueNotLost (g : Ghost) (sp : Nat) (now lossDelay : Int) : List Fail :=
+  let la : Int := g.largestAcked.getD sp (-1)
+  g.pkts.foldl (fun (acc : List Fail) (p : GPkt) =>
+    let skBetween : Int := if sp = 2 then ((g.skipped.filter fun x => p.pn < x ∧ x < la).length : Int) else 0
+    if p.space = sp ∧ !p.probe ∧ !p.gone ∧ !p.maybeGone ∧ p.frames.any (fun f => !f.2) ∧ p.pn < la ∧
+        (p.sendTime ≤ now - lossDelay ∨ la - p.pn - skBetween ≥ packetThreshold) then
+      acc ++ [("ledger_overdue_not_lost", "-", s!"packet {p.pn} (space {sp}, sent at {p.sendTime}{if p.mtu then ", Path MTU probe" else ""}) is below the largest acknowledged {la} and overdue at {now} (loss delay {lossDelay}) but frames {(p.frames.filter (fun f => !f.2)).map (·.1)} were not reported lost")]
+    else acc) []
 
 def Ghost.bifBounds (g : Ghost) : Int × Int :=
   let lo := (g.pkts.filter GPkt.knownInFlight).foldl (fun a p => a + p.size) 0
